@@ -1191,6 +1191,36 @@ fn sig_secondary_gutter(c: &Case, f: &Facts) -> bool {
     last >= 10
 }
 
+/// Open finding `c17-marker-left-of-trimmed-margin`: the located column lies inside the leading
+/// blanks / tabs of its line while some line of the window is wider than the renderer's 140
+/// display columns once tabs are expanded to 4 (cropping counts a tab as one column): the renderer
+/// then trims the left margin of every line and the marker, which is left of the new margin, is
+/// printed in the gutter.
+fn sig_marker_in_trimmed_margin(c: &Case, f: &Facts) -> bool {
+    let Some((l, col)) = f.loc else { return false };
+    let lines = &f.model.lines;
+    if l == 0 || l > lines.len() {
+        return false;
+    }
+    let line: Vec<char> = lines[l - 1].chars().collect();
+    let in_blanks = line.iter().take(col.saturating_sub(1).min(line.len())).all(|ch| *ch == ' ' || *ch == '\t')
+        && line.get(col.saturating_sub(1)).is_none_or(|ch| *ch == ' ' || *ch == '\t');
+    if !in_blanks {
+        return false;
+    }
+    let r = c.opts.crop;
+    let (lo, hi) = (col.saturating_sub(r).max(1), col.saturating_add(r));
+    let from = l.saturating_sub(2).max(1);
+    let to = (l + 2).min(lines.len());
+    (from..=to).any(|k| {
+        let cs: Vec<char> = lines[k - 1].chars().collect();
+        let shown: Vec<char> = cs.iter().enumerate().filter(|(i, _)| r == 0 || (i + 1 >= lo && i + 1 <= hi)).map(|(_, ch)| *ch).collect();
+        let width: usize = shown.iter().map(|ch| if *ch == '\t' { 4 } else { 1 }).sum();
+        // (the renderer's limit of 140 columns includes the label text after the marker)
+        width > 100
+    })
+}
+
 fn check_case(c: &Case) -> Result<Notes, String> {
     let f = facts(c);
     check_with(c, &f)
@@ -1776,6 +1806,9 @@ impl Property for C17 {
         }
         if sig_secondary_gutter(c, &f) {
             v.push("secondary_window_gutter");
+        }
+        if sig_marker_in_trimmed_margin(c, &f) {
+            v.push("marker_in_trimmed_margin");
         }
         v
     }
